@@ -218,10 +218,17 @@ impl RoutingThread {
                     .await;
             }
             Message::KeyListUpdate(key_list) => {
-                self.network
+                if let Err(e) = self
+                    .network
                     .handle_received_key_list(peer_index, key_list)
                     .await
-                    .unwrap();
+                {
+                    // unknown peer, or the peer is sending key lists faster than its rate limit allows
+                    warn!(
+                        "key list update from peer : {:?} is not accepted : {:?}",
+                        peer_index, e
+                    );
+                }
             }
             Message::Block(_) => {
                 // blocks are fetched over http, never accepted as a peer message. a peer which
